@@ -21,6 +21,10 @@ pub enum Op {
     /// restarts from its own disk and signs: state kept outside the key objects
     /// would leak between the two nodes
     Neighbour { reload: bool, msg: Vec<u8>, stream: u64 },
+    /// the node first tries to load a damaged copy of its key file (a reserved field pattern at
+    /// `field`, or a flipped header bit if `field` is None) - which must be refused - and only then
+    /// the good one; nothing about the good key may depend on the failed attempt
+    FailedLoad { field: Option<usize> },
 }
 
 impl Op {
@@ -31,11 +35,13 @@ impl Op {
             }
             Op::Crash => json!({"op": "crash"}),
             Op::Neighbour { reload, msg, stream } => json!({"op": "neighbour", "reload": reload, "msg_hex": hex(msg), "stream": stream}),
+            Op::FailedLoad { field } => json!({"op": "failed_load", "field": field}),
         }
     }
     fn from_json(v: &Value) -> Option<Op> {
         match v.get("op")?.as_str()? {
             "crash" => Some(Op::Crash),
+            "failed_load" => Some(Op::FailedLoad { field: v.get("field").and_then(|f| f.as_u64()).map(|f| f as usize) }),
             "neighbour" => Some(Op::Neighbour {
                 reload: v.get("reload")?.as_bool()?,
                 msg: unhex(v.get("msg_hex")?.as_str()?)?,
@@ -100,6 +106,13 @@ impl Plan {
             norm_rejects: 0,
             compress_fails: 0,
         });
+        // a third of the life-cycles see a failed load of a damaged key file right before a restart
+        if rng.chance(1, 3) {
+            if let Some(pos) = ops.iter().position(|o| matches!(o, Op::Crash)) {
+                let field = if rng.chance(4, 5) { Some(1 + rng.usize_below(3 * n - 1)) } else { None };
+                ops.insert(pos, Op::FailedLoad { field });
+            }
+        }
         // a quarter of the life-cycles share their process with a neighbour node
         let mut other_seed = None;
         if rng.chance(1, 4) {
@@ -176,6 +189,24 @@ pub fn execute<V: Variant>(plan: &Plan) -> Outcome {
     }
     for (i, op) in plan.ops.iter().enumerate() {
         match op {
+            Op::FailedLoad { field } => {
+                st.inc("fault.failed_load_of_damaged_copy");
+                let mut bad = disk.clone();
+                let p = crate::reference::codec::params(n);
+                match field {
+                    Some(fi) => {
+                        // field index over f (n fields), g (n), F (n): reserved pattern 100..0
+                        let w = p.fg_bits;
+                        let (off, width) = if *fi < n { (8 + w * fi, w) } else if *fi < 2 * n { (8 + w * n + w * (fi - n), w) } else { (8 + 2 * w * n + 8 * (fi - 2 * n), 8) };
+                        crate::byz::set_bits(&mut bad, off, width, 1 << (width - 1));
+                    }
+                    None => bad[0] ^= 0x20,
+                }
+                match crate::guard::guarded(|| V::sk_from_bytes(&bad)) {
+                    Ok(_) => {} // Ok or Err: strictness is C06's subject; what matters is what happens next
+                    Err(u) => return fail(st, log, format!("SecretKey{}::from_bytes {} on a damaged key file", n, u.signature()), format!("op {}", i)),
+                }
+            }
             Op::Neighbour { reload, msg, stream } => {
                 if let Some((nsk, npk, disk2)) = neighbour.as_mut() {
                     st.inc("neighbour_ops");
@@ -353,7 +384,197 @@ fn run_plan(plan: &Plan, run: u64, do_minimise: bool) -> RunOutcome {
     out
 }
 
+// ---------------------------------------------------------------------------
+// deep batch (instrumented build, function-entry yield points): several caller
+// threads serialise and deserialise keys and signatures of many keys at the same
+// time; every result must be what the same call yields alone
+// ---------------------------------------------------------------------------
+
+fn deep_run(seed: u64, run: u64, pool: &world::KeyPool<V512>, pool2: &world::KeyPool<V1024>) -> RunOutcome {
+    use crate::sched::{run_threads, Handle};
+    use std::rc::Rc;
+    use std::sync::Arc;
+    let mut rng = Prng::new(report::run_seed(seed, "C05deep", run));
+    let mut out = RunOutcome::default();
+    let mut k512 = Vec::new();
+    for k in &pool.keys {
+        match k.load() {
+            Ok(kp) => k512.push((kp, k.sk_bytes.clone(), k.pk_bytes.clone(), k.sigs.clone())),
+            Err(_) => {
+                out.stats.inc("harness.pool_key_not_loadable");
+                return out;
+            }
+        }
+    }
+    let mut k1024 = Vec::new();
+    for k in &pool2.keys {
+        match k.load() {
+            Ok(kp) => k1024.push((kp, k.sk_bytes.clone(), k.pk_bytes.clone(), k.sigs.clone())),
+            Err(_) => {
+                out.stats.inc("harness.pool_key_not_loadable");
+                return out;
+            }
+        }
+    }
+    let a = Arc::new(k512);
+    let b = Arc::new(k1024);
+    let nthreads = 2 + rng.usize_below(5);
+    // per thread: (variant, key index, what) triples
+    let plans: Vec<Vec<(usize, usize, u8)>> = (0..nthreads)
+        .map(|_| (0..20 + rng.usize_below(40)).map(|_| (if rng.chance(1, 4) { 1024 } else { 512 }, rng.usize_below(64), rng.below(4) as u8)).collect())
+        .collect();
+    let total_ops: u64 = plans.iter().map(|p| p.len() as u64).sum();
+    let budget = *rng.pick(&[30u64, 100, 300, 1000, 3000]);
+    let mut k = 0u32;
+    while k < 30 && ((total_ops * 3) >> k) > budget {
+        k += 1;
+    }
+    fn one<V: Variant>(e: &((V::Sk, V::Pk), Vec<u8>, Vec<u8>, Vec<(Vec<u8>, Vec<u8>)>), what: u8) -> Option<String> {
+        let ((sk, pk), skb, pkb, sigs) = e;
+        match what {
+            0 => {
+                if V::pk_to_bytes(pk) != *pkb {
+                    return Some(format!("PublicKey{}::to_bytes returned a different encoding than the same call alone", V::N));
+                }
+            }
+            1 => {
+                if V::sk_to_bytes(sk) != *skb {
+                    return Some(format!("SecretKey{}::to_bytes returned a different encoding than the same call alone", V::N));
+                }
+            }
+            2 => match V::pk_from_bytes(pkb) {
+                Ok(p2) => {
+                    if p2 != *pk {
+                        return Some(format!("decoded public key{} differs from the original", V::N));
+                    }
+                }
+                Err(e) => return Some(format!("PublicKey{}::from_bytes rejects bytes written by to_bytes ({})", V::N, e)),
+            },
+            _ => {
+                if let Some((_m, sb)) = sigs.first() {
+                    match V::sig_from_bytes(sb) {
+                        Ok(s2) => {
+                            if V::sig_to_bytes(&s2) != *sb {
+                                return Some(format!("decoded signature{} re-encodes differently", V::N));
+                            }
+                        }
+                        Err(e) => return Some(format!("Signature{}::from_bytes rejects bytes written by to_bytes ({})", V::N, e)),
+                    }
+                }
+            }
+        }
+        None
+    }
+    let bodies: Vec<Box<dyn FnOnce(Rc<Handle>) -> Option<(usize, String)> + Send>> = plans
+        .iter()
+        .map(|ops| {
+            let ops = ops.clone();
+            let (a, b) = (a.clone(), b.clone());
+            Box::new(move |h: Rc<Handle>| {
+                let _deep = crate::deep::install(&h);
+                for (i, (n, ki, what)) in ops.iter().enumerate() {
+                    h.boundary();
+                    let r = crate::guard::guarded(|| if *n == 512 { one::<V512>(&a[ki % a.len()], *what) } else { one::<V1024>(&b[ki % b.len()], *what) });
+                    match r {
+                        Ok(None) => {}
+                        Ok(Some(c)) => return Some((i, c)),
+                        Err(u) => return Some((i, format!("serialisation {} under concurrency", u.signature()))),
+                    }
+                }
+                None
+            }) as Box<dyn FnOnce(Rc<Handle>) -> Option<(usize, String)> + Send>
+        })
+        .collect();
+    let (res, sched) = run_threads(rng.next_u64(), Some(k), 64, bodies);
+    out.stats.inc("runs");
+    out.stats.inc("runs.deep");
+    if sched.free_running {
+        out.stats.inc("inconclusive.schedule_infeasible");
+        return out;
+    }
+    out.stats.steps += sched.steps;
+    out.stats.add("deep.yield_points", sched.steps);
+    out.stats.add("sched.switches", sched.switches);
+    out.stats.evaluations += total_ops;
+    if sched.switches > 0 {
+        out.stats.interleavings.insert(sched.trace_hash);
+        out.stats.distinct.insert(sched.trace_hash);
+    }
+    out.stats.log_hash = sched.trace_hash;
+    for (t, r) in res.iter().enumerate() {
+        if let Ok(Some((i, class))) = r {
+            out.violations.push(Violation {
+                property: PROP,
+                class: class.clone(),
+                detail: format!("deep run {}: thread {} op {} of {} threads", run, t, i, nthreads),
+                replay: json!({"kind": "deep-rerun", "deep": true, "deep_seed": seed, "deep_run": run, "tier": if pool.keys.len() > 12 { "thorough" } else { "quick" }}),
+                run: (1 << 41) + run,
+            });
+            break;
+        }
+    }
+    out
+}
+
+fn deep_sizes(tier: Tier) -> (u64, usize, usize) {
+    match tier {
+        Tier::Quick => (120, 8, 3),
+        Tier::Thorough => (3000, 16, 6),
+    }
+}
+
+/// entry of the deep binary: `falcon-sim deepruns C05 <tier> <seed> <outfile>`
+pub fn deepruns_main(tier: Tier, seed: u64, outfile: &str) -> i32 {
+    let w = report::workers();
+    let (runs, n512, n1024) = deep_sizes(tier);
+    let pool: world::KeyPool<V512> = world::KeyPool::build(report::run_seed(seed, "c05-deep-pool", 0), n512, 1, w);
+    let pool2: world::KeyPool<V1024> = world::KeyPool::build(report::run_seed(seed, "c05-deep-pool", 1), n1024, 1, w);
+    if pool.keys.len() < n512 || pool2.keys.len() < n1024 {
+        eprintln!("HARNESS-ERROR: deep key pool could not be built");
+        return 2;
+    }
+    let mut out = report::parallel_runs(runs, w, |run| deep_run(seed, run, &pool, &pool2));
+    for (run, what) in report::take_dead_runs(&mut out.stats) {
+        out.violations.push(Violation {
+            property: PROP,
+            class: format!("run's process died: {}", what),
+            detail: format!("deep run {}", run),
+            replay: json!({"kind": "deep-rerun", "deep": true, "tier": tier.name(), "deep_seed": seed, "deep_run": run}),
+            run: (1 << 41) + run,
+        });
+    }
+    match std::fs::write(outfile, out.to_bytes()) {
+        Ok(_) => 0,
+        Err(_) => 2,
+    }
+}
+
+fn replay_deep_rerun(doc: &Value) -> Option<String> {
+    let tier = if doc.get("tier")?.as_str()? == "thorough" { Tier::Thorough } else { Tier::Quick };
+    let seed = doc.get("deep_seed")?.as_u64()?;
+    let run = doc.get("deep_run")?.as_u64()?;
+    let (_runs, n512, n1024) = deep_sizes(tier);
+    let w = report::workers();
+    let pool: world::KeyPool<V512> = world::KeyPool::build(report::run_seed(seed, "c05-deep-pool", 0), n512, 1, w);
+    let pool2: world::KeyPool<V1024> = world::KeyPool::build(report::run_seed(seed, "c05-deep-pool", 1), n1024, 1, w);
+    let want = doc.get("violation").and_then(|v| v.as_str()).unwrap_or("");
+    match crate::isolate::isolated(|| deep_run(seed, run, &pool, &pool2).to_bytes(), crate::isolate::run_timeout_s()) {
+        Ok(b) => {
+            let o = RunOutcome::from_bytes(&b)?;
+            if o.violations.iter().any(|v| v.class == want) {
+                Some(want.to_string())
+            } else {
+                o.violations.first().map(|v| v.class.clone())
+            }
+        }
+        Err(f) => Some(format!("run's process died: {}", f.describe())),
+    }
+}
+
 pub fn replay(doc: &Value) -> Option<String> {
+    if doc.get("kind").and_then(|k| k.as_str()) == Some("deep-rerun") {
+        return replay_deep_rerun(doc);
+    }
     let plan = Plan::from_json(doc)?;
     execute_dyn(&plan).class.map(|c| c.0)
 }
@@ -437,7 +658,18 @@ pub fn check(tier: Tier, seed: u64) -> i32 {
     let total = ctx.pins.len() as u64 + ctx.n512 + ctx.n1024;
     let out = report::parallel_runs(total, w, |run| dispatch(&ctx, seed, run));
     rep.absorb(out);
-    rep.rule = "a case is one signer-node life-cycle for one key seed (a quarter of them with a second, Falcon-512 signer node living in the same process and restarting / signing in between): keygen, publish pk bytes, persist sk bytes, then a seeded sequence of sign operations (some with buggify-forced retries) and 1-3 crashes; after a crash the node restarts from the bytes on the simulated disk only, and the verifier keeps the public-key bytes published before the first crash; all life-cycles are non-trivial (each restarts at least once and signs after the last restart); distinct = distinct (variant, key seed)".into();
+    // deep batch: concurrent serialisation round trips under function-entry pre-emption
+    match crate::props::run_deep_batch(PROP, tier, seed) {
+        Ok(Some(o)) => rep.absorb(o),
+        Ok(None) => {
+            rep.stats.notes.insert("NOTE: no instrumented (deep) build available; the concurrent round-trip batch was skipped".into());
+        }
+        Err(e) => {
+            eprintln!("HARNESS-ERROR: {}", e);
+            return 2;
+        }
+    }
+    rep.rule = "a case is one signer-node life-cycle for one key seed (a quarter of them with a second, Falcon-512 signer node living in the same process and restarting / signing in between): keygen, publish pk bytes, persist sk bytes, then a seeded sequence of sign operations (some with buggify-forced retries) and 1-3 crashes; after a crash the node restarts from the bytes on the simulated disk only, and the verifier keeps the public-key bytes published before the first crash; a deep batch (instrumented build) lets 2-6 caller threads serialise and deserialise keys and signatures of 11 (22) keys of both variants concurrently under function-entry pre-emption, every result compared with the same call alone; all life-cycles are non-trivial (each restarts at least once and signs after the last restart); distinct = distinct (variant, key seed)".into();
     rep.assumptions = vec![
         "disk and channel are fault-free in this configuration (a damaged store promises nothing; see C03/C06)".into(),
         "pinned key seeds in corpus/C05/seeds.txt are seeds that reached an unrepresentable coefficient during exploration of the pinned commit".into(),
